@@ -152,6 +152,19 @@ def _r04b(rep):
                 want = ast.Eq if isinstance(n, ast.Assert) else ast.NotEq
                 if one and cnt and isinstance(c.ops[0], want):
                     uniq.append(n)
+    if not uniq:
+        # vectorised spelling: assert (count_per_atom == 1).all() with the count a sum / count_nonzero along an axis
+        for n in ast.walk(mf):
+            test = n.test if isinstance(n, (ast.Assert, ast.If)) else None
+            if test is None or (isinstance(n, ast.If) and not any(isinstance(x, ast.Raise) for st in n.body for x in ast.walk(st))):
+                continue
+            for c in [x for x in ast.walk(test) if isinstance(x, ast.Compare) and len(x.ops) == 1]:
+                sides = [c.left, c.comparators[0]]
+                one = [x for x in sides if isinstance(x, ast.Constant) and x.value == 1]
+                cnt = [x for x in sides if not isinstance(x, ast.Constant) and ("sum(" in core.src(x) or "count_nonzero" in core.src(x)) and "axis" in core.src(x)]
+                want = ast.Eq if isinstance(n, ast.Assert) else ast.NotEq
+                if one and cnt and isinstance(c.ops[0], want) and (".all()" in core.src(test) or ".any()" in core.src(test)):
+                    uniq.append(n)
     rep.instance("R04b", CELLS, "Primitive._map_atomic_indices", core.norm(core.src(uniq[0]), 60) if uniq else "<no uniqueness test>", bool(uniq), "a supercell atom matching zero or several primitive atoms is no longer rejected", line=mf.lineno)
     tf = core.find_def(CELLS, "_trim_cell")
     t = core.src(tf)
@@ -509,6 +522,35 @@ def _r04l(rep):
         raise AnalysisError(f"R04l: only {n} cell constructions with species found in atoms.py / cells.py")
 
 
+def _r04m(rep):
+    """p2p_map: from the supercell index of a primitive atom to its index in the primitive cell."""
+    from rules.c02 import _maptype
+
+    rep.rule("R04m", "Primitive._map_atomic_indices: p2p_map is the inverse of p2s_map (index-map typing R->P: {p2s_map[i]: i}); numbering the distinct values of s2p_map in ascending order gives the same dictionary only while p2s_map is ascending, which positions_to_reorder does not keep -- supercell atoms are then assigned to another primitive atom (species, mass, force-constant block)", 1)
+    fn = core.find_def(CELLS, "Primitive._map_atomic_indices")
+    rets = [r.value for r in ast.walk(fn) if isinstance(r, ast.Return) and isinstance(r.value, ast.Tuple) and len(r.value.elts) == 2]
+    if len(rets) != 1:
+        raise AnalysisError("R04m: _map_atomic_indices no longer returns (s2p_map, p2p_map)")
+    env = {}
+    for st in ast.walk(fn):
+        if isinstance(st, ast.Assign) and len(st.targets) == 1 and isinstance(st.targets[0], ast.Name):
+            env.setdefault(st.targets[0].id, st.value)
+    # the s2p_map built here is a S->R map by construction (elements of p2s_map); the typing of p2p_map starts there
+    env2 = dict(env)
+    s2p_name = rets[0].elts[0].id if isinstance(rets[0].elts[0], ast.Name) else None
+    if s2p_name:
+        env2[s2p_name] = ("S", "R")
+    v = core.resolve_name(fn, rets[0].elts[1])
+    if isinstance(v, ast.Call) and core.src(v.func) == "dict" and v.args and isinstance(v.args[0], ast.ListComp) and isinstance(v.args[0].elt, ast.Tuple) and len(v.args[0].elt.elts) == 2:
+        lc = v.args[0]
+        v = ast.DictComp(key=lc.elt.elts[0], value=lc.elt.elts[1], generators=lc.generators)
+    got = _maptype(v, env2, CELLS)
+    if got is None:
+        raise AnalysisError(f"R04m: cannot type p2p_map '{core.norm(core.src(v), 70)}'")
+    rep.instance("R04m", CELLS, "Primitive._map_atomic_indices", f"p2p_map = {core.norm(core.src(v), 70)} : {got[0]}->{got[1]}", tuple(got) == ("R", "P"),
+                 f"p2p_map is typed {got[0]}->{got[1]}, not R->P (supercell index of a primitive atom -> its index in the primitive cell)", line=rets[0].lineno)
+
+
 def _r04k(rep):
     """The pure translations are differences inside one sublattice: reference atom and images of the same primitive atom."""
     rep.rule("R04k", "pure translations of the primitive cell: the vectors handed to the permutation search are positions of the images of ONE primitive atom (selected by s2p_map == r) minus the position of an atom of that same sublattice (the representative r itself, or one of the selected images); a reference from another sublattice gives offsets between sublattices, which are not lattice translations whenever the primitive atom order is not the supercell order (positions_to_reorder)", 1)
@@ -610,6 +652,7 @@ def run(rep: core.Report):
     _r04j(rep)
     _r04k(rep)
     _r04l(rep)
+    _r04m(rep)
     from rules import shared_bcast
 
     shared_bcast.run(rep, "R04h", sorted(core.python_files("phonopy/structure")))
@@ -619,6 +662,7 @@ def selftest():
     V = []
     b = lambda name, file, old, new, rule, expect="", **kw: V.append(dict(name=name, kind="break", file=file, old=old, new=new, rule=rule, expect=expect, **kw))
     n = lambda name, file, old, new, **kw: V.append(dict(name=name, kind="neutral", file=file, old=old, new=new, **kw))
+    b("p2p_map numbered by the sorted distinct values of s2p_map", CELLS, "        p2p_map = dict([(j, i) for i, j in enumerate(self._p2s_map)])", "        p2p_map = {j: i for i, j in enumerate(np.unique(s2p_map))}", "R04m", "_map_atomic_indices")
     b("copy() hands the atomic numbers over instead of the symbols", "phonopy/structure/atoms.py", "            magnetic_moments=self._magnetic_moments,\n            symbols=self._symbols,\n        )", "            magnetic_moments=self._magnetic_moments,\n            numbers=self.numbers,\n        )", "R04l", "copy")
     b("translations referenced to supercell atom 0's representative", CELLS, "        diff = positions - positions[self._p2s_map[0]]", "        diff = positions - positions[self._s2p_map[0]]", "R04k", "_get_atomic_permutations")
     n("translations referenced to the first selected image", CELLS, "        diff = positions - positions[self._p2s_map[0]]\n        trans = np.array(\n            diff[np.where(self._s2p_map == self._p2s_map[0])[0]],", "        images = np.where(self._s2p_map == self._p2s_map[0])[0]\n        diff = positions - positions[images[0]]\n        trans = np.array(\n            diff[images],")
